@@ -8,11 +8,13 @@ uses, and the caller's feeding loop); grammar: `SquidModel.Chunked.Grammar`; lem
 offered again while the parser asks for it. All statements hold for every input, segmentation and capacity
 sequence — no bound on sizes.
 
-Full statement that is NOT true of the code (see `segmentation_independence_counterexample`):
-  ∀ segs, (feedAll relaxed capOf segs) agrees with (feedAll relaxed capOf [segs.flatten])
-It is proved below with the one-shot verdict `reject extCrlf` excluded (`segmentation_independence_partial`).
+Headline: `segmentation_independence` — for EVERY input (well-formed or not) every segmentation with every capacity
+sequence ends with the verdict and the output of the unsegmented run. It holds for the tree as it is (since /repo
+db563bd `parseChunkExtensions` no longer moves the parse checkpoint between extensions; the translator reads that
+from the source as `extCommit = false`). The pre-fix variant violated it: `prefix_variant_counterexample`.
 -/
 import SquidModel.Chunked.Reject
+import SquidModel.Chunked.PreFix
 
 namespace SquidModel.C24
 open SquidModel.Chunked SquidModel.Chunked.Grammar
@@ -24,6 +26,43 @@ theorem oneShot_obs (relaxed : Bool) (capOf : Nat → Nat) (hpos : ∀ i, 0 < ca
     (oneShot relaxed capOf input).obs = obsOf [] (parseU relaxed St.init input) := by
   have := feed_obs relaxed capOf hpos Run.init rfl input
   simpa [oneShot, feedAll, Run.init] using this
+
+/-- the tree as it is: no parse checkpoint between chunk extensions (read from the source by the translator) -/
+theorem no_commit_between_extensions : Gen.ChunkedSets.extCommit = false := by decide
+
+/-- the incremental run agrees with the unsegmented run (verdict, output, and — while more data is wanted — parser
+state and unparsed rest; after "done" the unsegmented run holds the same rest plus what was never fed) -/
+theorem agree_with_unsegmented (relaxed : Bool) (capOf : Nat → Nat) (hpos : ∀ i, 0 < capOf i) (segs : List Bytes) :
+    Agree (feedAll relaxed capOf segs) (oneShot relaxed capOf segs.flatten) := by
+  rcases feedAll_oneShot relaxed capOf hpos segs with hA | hQ
+  · exact hA
+  · have := hQ.1; rw [no_commit_between_extensions] at this; simp at this
+
+/-- **Segmentation and capacity independence.** For *every* input, well-formed or not, every segmentation with every
+sequence of positive payload capacities ends with the same verdict and the same decoded octets as the run on the
+unsegmented input (with any other positive capacities). -/
+theorem segmentation_independence (relaxed : Bool) (capOf capOf' : Nat → Nat) (hpos : ∀ i, 0 < capOf i)
+    (hpos' : ∀ i, 0 < capOf' i) (segs : List Bytes) :
+    (feedAll relaxed capOf segs).verdict = (oneShot relaxed capOf' segs.flatten).verdict ∧
+    (feedAll relaxed capOf segs).out = (oneShot relaxed capOf' segs.flatten).out := by
+  have hcaps : (oneShot relaxed capOf segs.flatten).obs = (oneShot relaxed capOf' segs.flatten).obs := by
+    rw [oneShot_obs relaxed capOf hpos, oneShot_obs relaxed capOf' hpos']
+  have hv : (oneShot relaxed capOf segs.flatten).verdict = (oneShot relaxed capOf' segs.flatten).verdict := by
+    simp only [Run.obs, Obs.mk.injEq] at hcaps; exact hcaps.2.2
+  have ho : (oneShot relaxed capOf segs.flatten).out = (oneShot relaxed capOf' segs.flatten).out := by
+    simp only [Run.obs, Obs.mk.injEq] at hcaps; exact hcaps.2.1
+  rw [← hv, ← ho]
+  have hA := agree_with_unsegmented relaxed capOf hpos segs
+  unfold Agree at hA
+  generalize feedAll relaxed capOf segs = R at hA ⊢
+  cases hR : R.verdict with
+  | more =>
+    rw [hR] at hA
+    simp only [Run.obs, Obs.mk.injEq] at hA
+    exact ⟨by rw [← hR]; exact hA.2.2, hA.2.1⟩
+  | done => rw [hR] at hA; exact ⟨hA.1.symm, hA.2.1.symm⟩
+  | tooLarge => rw [hR] at hA; exact ⟨hA.1.symm, hA.2.symm⟩
+  | reject e => rw [hR] at hA; exact ⟨hA.1.symm, hA.2.symm⟩
 
 /-- **Exactness.** For any body, any encoding of it in the grammar (any chunk sizes with any hex case and leading
 zeros, any BWS the grammar allows, token and quoted-string extensions, trailers), any segmentation of the encoding
@@ -54,7 +93,7 @@ theorem decode_exact (relaxed : Bool) (capOf : Nat → Nat) (hpos : ∀ i, 0 < c
       exact ⟨rfl, by rw [← a2]; exact o3, m, by rw [← a4]; exact o2.symm⟩
     | tooLarge => rw [hR] at hA; rw [show (feedAll relaxed capOf [enc ++ extra]).verdict = _ from o4] at hA; simp at hA
     | reject e => rw [hR] at hA; rw [show (feedAll relaxed capOf [enc ++ extra]).verdict = _ from o4] at hA; simp at hA
-  · rw [hsegs, show (feedAll relaxed capOf [enc ++ extra]).verdict = _ from o4] at hQ; simp at hQ
+  · have hq := hQ.2; rw [hsegs, show (feedAll relaxed capOf [enc ++ extra]).verdict = _ from o4] at hq; simp at hq
 
 /-- exactness without pipelined octets: everything is consumed -/
 theorem decode_exact_all_consumed (relaxed : Bool) (capOf : Nat → Nat) (hpos : ∀ i, 0 < capOf i)
@@ -100,7 +139,7 @@ theorem truncated_needs_more (relaxed : Bool) (capOf : Nat → Nat) (hpos : ∀ 
         · simp only [hd, if_false] at hx
           simp only [Bool.false_eq_true, if_false, hd] at o4
           refine ⟨o4, ?_⟩
-          rcases hx with heq | ⟨o, hbad⟩
+          rcases hx with heq | ⟨_, o, hbad⟩
           · rw [hfull] at heq
             cases hZ : parseU relaxed c'.st (c'.buf ++ q) with
             | threw e o => rw [hZ] at heq; simp [obsOf] at heq
@@ -122,65 +161,19 @@ theorem truncated_needs_more (relaxed : Bool) (capOf : Nat → Nat) (hpos : ∀ 
     | done => rw [hR] at hA; rw [show (feedAll relaxed capOf [p]).verdict = _ from hone.1] at hA; simp at hA
     | tooLarge => rw [hR] at hA; rw [show (feedAll relaxed capOf [p]).verdict = _ from hone.1] at hA; simp at hA
     | reject e => rw [hR] at hA; rw [show (feedAll relaxed capOf [p]).verdict = _ from hone.1] at hA; simp at hA
-  · rw [hsegs, show (feedAll relaxed capOf [p]).verdict = _ from hone.1] at hQ; simp at hQ
+  · have hq := hQ.2; rw [hsegs, show (feedAll relaxed capOf [p]).verdict = _ from hone.1] at hq; simp at hq
 
-/-- **Segmentation independence (partial).** For *every* input, well-formed or not: unless the run on the
-unsegmented input fails with "cannot skip CRLF after [chunk-ext]", every segmentation with every capacity
-sequence ends with the same verdict and the same decoded octets as the unsegmented run. -/
-theorem segmentation_independence_partial (relaxed : Bool) (capOf capOf' : Nat → Nat) (hpos : ∀ i, 0 < capOf i)
-    (hpos' : ∀ i, 0 < capOf' i) (segs : List Bytes)
-    (hex : (oneShot relaxed capOf' segs.flatten).verdict ≠ .reject .extCrlf) :
-    (feedAll relaxed capOf segs).verdict = (oneShot relaxed capOf' segs.flatten).verdict ∧
-    (feedAll relaxed capOf segs).out = (oneShot relaxed capOf' segs.flatten).out := by
-  have hcaps : (oneShot relaxed capOf segs.flatten).obs = (oneShot relaxed capOf' segs.flatten).obs := by
-    rw [oneShot_obs relaxed capOf hpos, oneShot_obs relaxed capOf' hpos']
-  have hv : (oneShot relaxed capOf segs.flatten).verdict = (oneShot relaxed capOf' segs.flatten).verdict := by
-    simp only [Run.obs, Obs.mk.injEq] at hcaps; exact hcaps.2.2
-  have ho : (oneShot relaxed capOf segs.flatten).out = (oneShot relaxed capOf' segs.flatten).out := by
-    simp only [Run.obs, Obs.mk.injEq] at hcaps; exact hcaps.2.1
-  rw [← hv, ← ho]
-  rw [← hv] at hex
-  rcases feedAll_oneShot relaxed capOf hpos segs with hA | hQ
-  · unfold Agree at hA
-    generalize feedAll relaxed capOf segs = R at hA ⊢
-    cases hR : R.verdict with
-    | more =>
-      rw [hR] at hA
-      simp only [Run.obs, Obs.mk.injEq] at hA
-      exact ⟨by rw [← hR]; exact hA.2.2, hA.2.1⟩
-    | done => rw [hR] at hA; exact ⟨hA.1.symm, hA.2.1.symm⟩
-    | tooLarge => rw [hR] at hA; exact ⟨hA.1.symm, hA.2.symm⟩
-    | reject e => rw [hR] at hA; exact ⟨hA.1.symm, hA.2.symm⟩
-  · exact absurd hQ hex
-
-/-- A rejection of the unsegmented input with any class other than "cannot skip CRLF after [chunk-ext]" is a
-rejection, with the same class, in every segmentation and with every capacity sequence. -/
+/-- A rejection of the unsegmented input is a rejection, with the same class, in every segmentation and with every
+capacity sequence. -/
 theorem reject_in_every_segmentation (relaxed : Bool) (capOf : Nat → Nat) (hpos : ∀ i, 0 < capOf i)
-    (input : Bytes) (e : Rej) (o : Bytes) (hU : parseU relaxed St.init input = .threw e o) (he : e ≠ .extCrlf)
+    (input : Bytes) (e : Rej) (o : Bytes) (hU : parseU relaxed St.init input = .threw e o)
     (segs : List Bytes) (hsegs : segs.flatten = input) :
     (feedAll relaxed capOf segs).verdict = .reject e := by
   have hO := oneShot_obs relaxed capOf hpos input
   rw [hU] at hO
-  have hOv := (obs_threw hO).2
-  rcases feedAll_oneShot relaxed capOf hpos segs with hA | hQ
-  · rw [hsegs] at hA
-    unfold Agree at hA
-    generalize feedAll relaxed capOf segs = R at hA ⊢
-    cases hR : R.verdict with
-    | more =>
-      rw [hR] at hA
-      have : R.verdict = (oneShot relaxed capOf input).verdict := by
-        simp only [Run.obs, Obs.mk.injEq] at hA; exact hA.2.2
-      rw [hR, hOv] at this; simp at this
-    | done => rw [hR] at hA; rw [show (feedAll relaxed capOf [input]).verdict = _ from hOv] at hA; simp at hA
-    | tooLarge => rw [hR] at hA; rw [show (feedAll relaxed capOf [input]).verdict = _ from hOv] at hA; simp at hA
-    | reject e' =>
-      rw [hR] at hA; rw [show (feedAll relaxed capOf [input]).verdict = _ from hOv] at hA
-      simp only [Verdict.reject.injEq] at hA
-      rw [hA.1]
-  · rw [hsegs, show (feedAll relaxed capOf [input]).verdict = _ from hOv] at hQ
-    simp only [Verdict.reject.injEq] at hQ
-    exact absurd hQ he
+  have := (segmentation_independence relaxed capOf capOf hpos hpos segs).1
+  rw [hsegs, (obs_threw hO).2] at this
+  exact this
 
 /-- **0x prefixes are rejected**: after any number of complete chunks, a chunk-size starting with `0x` or `0X`
 is rejected in every segmentation. -/
@@ -188,7 +181,7 @@ theorem reject_0x (relaxed : Bool) (capOf : Nat → Nat) (hpos : ∀ i, 0 < capO
     (pre body rest : Bytes) (x : UInt8) (hpre : ChunkSeq relaxed pre body) (hx : x = 120 ∨ x = 88)
     (segs : List Bytes) (hsegs : segs.flatten = pre ++ 48 :: x :: rest) :
     (feedAll relaxed capOf segs).verdict = .reject .zeroX := by
-  refine reject_in_every_segmentation relaxed capOf hpos _ .zeroX body ?_ (by simp) segs hsegs
+  refine reject_in_every_segmentation relaxed capOf hpos _ .zeroX body ?_ segs hsegs
   rw [parseU_chunkseq relaxed hpre _ (by simp)]
   exact loop_bad_size relaxed (parseChunkSize_zeroX x hx rest) body _
 
@@ -197,7 +190,7 @@ theorem reject_nonhex (relaxed : Bool) (capOf : Nat → Nat) (hpos : ∀ i, 0 < 
     (pre body rest : Bytes) (b : UInt8) (hpre : ChunkSeq relaxed pre body) (hb : isHex b = false)
     (segs : List Bytes) (hsegs : segs.flatten = pre ++ b :: rest) :
     (feedAll relaxed capOf segs).verdict = .reject .size := by
-  refine reject_in_every_segmentation relaxed capOf hpos _ .size body ?_ (by simp) segs hsegs
+  refine reject_in_every_segmentation relaxed capOf hpos _ .size body ?_ segs hsegs
   rw [parseU_chunkseq relaxed hpre _ (by simp)]
   exact loop_bad_size relaxed (parseChunkSize_nonhex hb rest) body _
 
@@ -206,7 +199,7 @@ theorem reject_size_overflow (relaxed : Bool) (capOf : Nat → Nat) (hpos : ∀ 
     (pre body ds rest : Bytes) (hpre : ChunkSeq relaxed pre body) (hds : ∀ x ∈ ds, isHex x = true)
     (hbig : 2 ^ 63 ≤ hexValue ds 0) (segs : List Bytes) (hsegs : segs.flatten = pre ++ (ds ++ rest)) :
     (feedAll relaxed capOf segs).verdict = .reject .size := by
-  refine reject_in_every_segmentation relaxed capOf hpos _ .size body ?_ (by simp) segs hsegs
+  refine reject_in_every_segmentation relaxed capOf hpos _ .size body ?_ segs hsegs
   have hne : ds ++ rest ≠ [] := by
     intro h
     have : ds = [] := (List.append_eq_nil_iff.mp h).1
@@ -260,7 +253,7 @@ theorem reject_missing_crlf (relaxed : Bool) (capOf : Nat → Nat) (hpos : ∀ i
     (hlt : size < 2 ^ 63) (hh : IsHdrRest relaxed h) (hd : d.length = size) (hbad : NotCrlf bad)
     (segs : List Bytes) (hsegs : segs.flatten = pre ++ (ds ++ h ++ d ++ bad)) :
     (feedAll relaxed capOf segs).verdict = .reject .chunkCrlf := by
-  refine reject_in_every_segmentation relaxed capOf hpos _ .chunkCrlf (body ++ d) ?_ (by simp) segs hsegs
+  refine reject_in_every_segmentation relaxed capOf hpos _ .chunkCrlf (body ++ d) ?_ segs hsegs
   have hne : ds ++ h ++ d ++ bad ≠ [] := by
     obtain ⟨hne, _⟩ := hs
     cases ds <;> simp_all
@@ -280,15 +273,15 @@ theorem reject_bad_ext_name (relaxed : Bool) (capOf : Nat → Nat) (hpos : ∀ i
     (hlt : size < 2 ^ 63) (h0 : IsWspRun w0) (h2 : IsBwsRun relaxed w2) (hb1 : isTchar b = false) (hb2 : isBws relaxed b = false)
     (segs : List Bytes) (hsegs : segs.flatten = pre ++ (ds ++ (w0 ++ 59 :: (w2 ++ b :: rest)))) :
     (feedAll relaxed capOf segs).verdict = .reject .extName := by
-  refine reject_in_every_segmentation relaxed capOf hpos _ .extName body ?_ (by simp) segs hsegs
+  refine reject_in_every_segmentation relaxed capOf hpos _ .extName body ?_ segs hsegs
   rw [parseU_chunkseq relaxed hpre _ (by simp)]
   obtain ⟨F, hF⟩ : ∃ F, (pre ++ (ds ++ (w0 ++ 59 :: (w2 ++ b :: rest)))).length + 1 = F + 1 + 1 :=
     ⟨(pre ++ (ds ++ (w0 ++ 59 :: (w2 ++ b :: rest)))).length - 1, by simp; omega⟩
   rw [hF]
   exact loop_bad_ext_name relaxed rest hs hlt h0 h2 hb1 hb2 body F
 
-/-- Further malformed extensions (one instance per throw site; these hold for the unsegmented header —
-for classes other than `extCrlf` also in every segmentation by `reject_in_every_segmentation`). -/
+/-- Further malformed extensions (one instance per throw site, unsegmented header; by `reject_in_every_segmentation`
+the same verdict in every segmentation). -/
 example : (oneShot false (fun _ => 4096) [49, 59, 13, 10]).verdict = .reject .extName := by decide          -- `1;\r\n`
 example : (oneShot false (fun _ => 4096) [49, 59, 97, 61, 13, 10]).verdict = .reject .token := by decide   -- `1;a=\r\n`
 example : (oneShot false (fun _ => 4096) [49, 59, 97, 61, 34, 13, 10]).verdict = .reject .qdtext := by decide  -- `1;a="\r\n`
@@ -296,18 +289,28 @@ example : (oneShot false (fun _ => 4096) [49, 59, 97, 61, 34, 92, 127, 34]).verd
 example : (oneShot false (fun _ => 4096) [49, 59, 97, 32, 98, 13, 10]).verdict = .reject .extCrlf := by decide   -- `1;a b\r\n`
 example : (oneShot true (fun _ => 4096) [49, 59, 97, 61, 120, 11, 13, 10]).verdict = .reject .extCrlf := by decide -- `1;a=x<VT>\r\n`
 
-/-- The excluded case is real in the code as it stands (`extCommit`: parseChunkExtensions() moves the parse
-checkpoint after every extension; the flag is read from the source by the translator, so that the statement
-stays true when the candidate fix removes that line): BWS between the last chunk-ext value and CRLF is rejected when
-the header arrives in one read and accepted when a read ends between the value and the CR.
-Witness: `5;a=x \r\nhello\r\n0\r\n\r\n`, cut after the SP. -/
+/-- `5;a=x \r\nhello\r\n0\r\n\r\n`: SP between a chunk-ext value and CRLF (regression witness of the fixed finding
+C24-bws-before-crlf-split) -/
 def witness : Bytes := [53, 59, 97, 61, 120, 32, 13, 10, 104, 101, 108, 108, 111, 13, 10, 48, 13, 10, 13, 10]
 
-theorem segmentation_independence_counterexample (hcode : Gen.ChunkedSets.extCommit = true) :
+/-- the witness is now rejected whether or not a read ends between the value and the CR -/
+theorem witness_rejected :
     (feedAll false (fun _ => 2 ^ 30) [witness]).verdict = .reject .extCrlf ∧
-    (feedAll false (fun _ => 2 ^ 30) [witness.take 6, witness.drop 6]).verdict = .done ∧
-    (feedAll false (fun _ => 2 ^ 30) [witness.take 6, witness.drop 6]).out = [104, 101, 108, 108, 111] := by
-  revert hcode
+    (feedAll false (fun _ => 2 ^ 30) [witness.take 6, witness.drop 6]).verdict = .reject .extCrlf ∧
+    (feedAll false (fun _ => 1) (witness.map fun b => [b])).verdict = .reject .extCrlf := by
+  decide
+
+/-- **Pre-fix variant only** (before /repo db563bd; `Chunked/PreFix.lean`): with the parse checkpoint moved after every
+extension, the header line `;a=x \r\n` (what follows the chunk-size) was rejected when parsed in one go, but when the
+buffer ended after the SP the call stopped at the commit point ` ` and the restart on ` \r\n` — which runs
+`ParseStrictBws` first — accepted it. -/
+theorem prefix_variant_counterexample :
+    PreFix.metaSuffixPre false [59, 97, 61, 120, 32, 13, 10] = .bad .extCrlf ∧
+    PreFix.metaSuffixPre false [59, 97, 61, 120, 32] = .need [32] ∧
+    PreFix.metaSuffixPre false ([32] ++ [13, 10]) = .ok [] ∧
+    -- the code as it is: the restart point stays after the chunk-size and the line is rejected again
+    metaSuffix false [59, 97, 61, 120, 32] = .need [59, 97, 61, 120, 32] ∧
+    metaSuffix false [59, 97, 61, 120, 32, 13, 10] = .bad .extCrlf := by
   decide
 
 /-! ### the hypotheses are satisfiable, the recognisers are not vacuous -/
@@ -328,7 +331,5 @@ example : (feedAll false (fun _ => 1) ([53, 13, 10, 104, 101, 108, 108, 111, 13,
 example : (oneShot false (fun _ => 7) [53, 13, 10, 104, 101]).verdict = .more := by decide
 /-- the grammar is not everything: a bare LF after the size is not a header rest the decoder accepts -/
 example : (oneShot false (fun _ => 7) [53, 10, 104]).verdict = .reject .extCrlf := by decide
-/-- the counterexample input is *not* in the grammar's reach: the one-shot run rejects it -/
-example : (oneShot false (fun _ => 2 ^ 30) witness).verdict ≠ .done := by decide
 
 end SquidModel.C24
